@@ -9,6 +9,8 @@ header (doc, package, set of imports) is identical and the multiset of top-level
 
 from __future__ import annotations
 
+import re
+
 import copy
 from collections import Counter
 from typing import Any
@@ -105,11 +107,24 @@ def _case(draw: Any, args: dict) -> dict:
     u_path = [pk, "b", draw(st.sampled_from(["things", "target", "helper"]))]
     u = unrelated(u_path, collide, 0)
     base_mods = [helper, target, alpha(False)]
+    # the unrelated package re-exports its own declarations through relative imports (its private base under a public alias)
+    inits_u = dict(inits)
+    if draw(st.booleans()):
+        own_names = [d["name"] for d in u["decls"] if d["t"] in {"class", "func"}]
+        # core: only names that the target neither declares nor references (re-exports are matched by name: a public name
+        # the target also uses is taken from the unrelated package - open finding, extended feature)
+        target_names = {d["name"] for d in decls} | set(helper_cls) | {henum}
+        overlap_ok = draw(st.integers(0, 3)) == 0
+        own_names = [n for n in own_names if n.startswith("_") or overlap_ok or n not in target_names]
+        stmts = [["from", "." + u_path[-1], n, ("PubU" + n.strip("_")) if n.startswith("_") else None] for n in own_names if n.startswith("_") or draw(st.booleans())]
+        if stmts:
+            inits_u[f"{pk}/b"] = stmts
     variants: list[dict] = []
     variants.append({"name": "U removed", "modules": base_mods, "inits": inits})
     variants.append({"name": "U renamed", "modules": [*base_mods, {**copy.deepcopy(u), "path": [pk, "b", "renamed_mod"]}], "inits": inits})
-    variants.append({"name": "U changed inside", "modules": [*base_mods, unrelated(u_path, collide, 1)], "inits": inits})
-    variants.append({"name": "second U added", "modules": [*base_mods, u, unrelated([pk, "c", "things"], collide, 2)], "inits": inits})
+    variants.append({"name": "U changed inside", "modules": [*base_mods, unrelated(u_path, collide, 1)], "inits": inits_u})
+    variants.append({"name": "second U added", "modules": [*base_mods, u, unrelated([pk, "c", "things"], collide, 2)], "inits": inits_u})
+    variants.append({"name": "re-exports of the unrelated package removed", "modules": [*base_mods, u], "inits": inits})
     variants.append({"name": "U placed before the target's package", "modules": [{**copy.deepcopy(u), "path": [pk, "_0first", u_path[-1]]}, *base_mods], "inits": inits})
     variants.append({"name": "U placed after everything", "modules": [*base_mods, {**copy.deepcopy(u), "path": [pk, "zz_last", u_path[-1]]}], "inits": inits})
     variants.append({"name": "U placed right before the target (same package)", "modules": [helper, {**copy.deepcopy(u), "path": [pk, "a", "s_unrelated"]}, target, alpha(False)], "inits": inits})
@@ -131,7 +146,7 @@ def _case(draw: Any, args: dict) -> dict:
                                 p["ann"] = ["cls", p["ann"][1].replace(old + ":", new + ":")]
                     if d["t"] == "class":
                         d["bases"] = [["cls", b[1].replace(old + ":", new + ":")] if b[0] == "cls" else b for b in d["bases"]]
-    return {"pkgname": pk, "base": {"modules": [*base_mods, u], "inits": inits}, "variants": variants, "moved": moved, "collide": collide, "options": {"nc": draw(st.booleans())}}
+    return {"pkgname": pk, "base": {"modules": [*base_mods, u], "inits": inits_u}, "variants": variants, "moved": moved, "collide": collide, "options": {"nc": draw(st.booleans())}}
 
 
 def strategy(args: dict) -> st.SearchStrategy:
@@ -161,6 +176,19 @@ def judge(case: dict) -> dict:
         and any(mem["t"] == "attr" and mem["ann"] and mem["ann"][0] == "list" and mem["ann"][1][0] in {"cls", "enum"} and mem["ann"][1][1] in own_refs for mem in d["members"])
     }
     _ = list_attr_own
+    # open finding: a public name that the unrelated package re-exports (relative import of its own module) and that the target
+    # declares or references too is taken from the unrelated package (re-exports are matched by name)
+    helper_names = {d["name"] for m in case["base"]["modules"] if m["path"][-2:] == ["a", "helper"] for d in m["decls"]}
+    target_names = {d["name"] for d in tmod["decls"]} | helper_names
+    overlap = {st_[2] for st_ in case["base"]["inits"].get(f"{pk}/b", []) if not st_[2].startswith("_")} & target_names
+
+    def otags(a_text: str, b_text: str) -> list[str]:
+        if not overlap:
+            return []
+        la, lb = a_text.split("\n"), b_text.split("\n")
+        diff = [x for x in la if x not in lb] + [x for x in lb if x not in la]
+        words = set(re.findall(r"[A-Za-z_][A-Za-z0-9_]*", " ".join(diff)))
+        return ["reexp:unrelated_same_name"] if any(f"{pk}.b" in x for x in diff) or (words & overlap) else []
 
     def run(v: dict) -> dict | None:
         files = gt.render_package(gt.package(pk, v["modules"], v["inits"]))
@@ -204,7 +232,7 @@ def judge(case: dict) -> dict:
                     fwd_elems = {mem["ann"][1][1].split(":")[-1] for d in fwd_here for mem in d["members"] if mem["t"] == "attr" and mem["ann"] and mem["ann"][0] == "list" and mem["ann"][1][0] in {"cls", "enum"}}
                     if (a.doc, a.package, a.annotations) == (b.doc, b.package, b.annotations) and diff_names and diff_names <= fwd_elems:
                         htags.append("attr:list_of_class_defined_later")
-                    discs.append(Discrepancy.make("header_changes_with_declaration_order", rel, f"imports {sorted(a.imports)} vs {sorted(b.imports)}", htags))
+                    discs.append(Discrepancy.make("header_changes_with_declaration_order", rel, f"imports {sorted(a.imports)} vs {sorted(b.imports)}", htags + otags(base[rel], got[rel])))
                 ca = Counter(repr(norm_decl(d, False)) for d in a.members)
                 cb = Counter(repr(norm_decl(d, False)) for d in b.members)
                 if ca != cb:
@@ -216,7 +244,7 @@ def judge(case: dict) -> dict:
                             dtags = tags + (["attr:list_of_class_defined_later"] if nm in fwd_classes else []) + (["tvar:method_typevar_after_generic_class"] if nm == "PlainWithTypeVarMethod" else [])
                             x, y = da.get(nm, "<absent>"), db.get(nm, "<absent>")
                             i = next((k for k in range(min(len(x), len(y))) if x[k] != y[k]), 0)
-                            discs.append(Discrepancy.make("declaration_changes_with_declaration_order", f"{rel}: {nm}", f"...{x[max(0, i - 60) : i + 60]} vs ...{y[max(0, i - 60) : i + 60]}", dtags))
+                            discs.append(Discrepancy.make("declaration_changes_with_declaration_order", f"{rel}: {nm}", f"...{x[max(0, i - 60) : i + 60]} vs ...{y[max(0, i - 60) : i + 60]}", dtags + otags(base[rel], got[rel])))
                 for kind in ("fun", "class", "enum"):
                     oa = [d.python_name for d in a.members if d.kind == kind]
                     ob = [d.python_name for d in b.members if d.kind == kind]
@@ -228,7 +256,7 @@ def judge(case: dict) -> dict:
                 a = text.split("\n")
                 b = (got.get(rel) or "<absent>").split("\n")
                 line = next((f"{x!r} vs {y!r}" for x, y in zip(a, b) if x != y), f"{len(a)} vs {len(b)} lines")
-                discs.append(Discrepancy.make("target_stub_depends_on_unrelated_module", f"{rel} [{v['name']}]", line[:300], tags))
+                discs.append(Discrepancy.make("target_stub_depends_on_unrelated_module", f"{rel} [{v['name']}]", line[:300], tags + otags(text, got.get(rel) or "")))
     if case.get("collide"):
         res["nontrivial"].append(f"{pk}|{case['moved']}|{case['options']}")
     res["stats"].append(f"unrelated_module_reuses_names={bool(case.get('collide'))}")
